@@ -15,5 +15,45 @@ KANI = {'gas_const_cost': {'crate': 'cairo-lang-sierra-gas',
                                   (_OBJ, 'impl WithdrawGasBranchInfo', 'const_cost'),
                                   (_GASMOD, 'impl BuiltinCostsType', 'cost_computation_steps')],
                     'trusted': ['published price table 100/10/70/56 (steps/holes/range_checks/range_checks96) is taken from the property statement']}}
+_GW = 'crates/cairo-lang-sierra-to-casm/src/environment/gas_wallet.rs'
+KANI['gas_wallet'] = {'crate': 'cairo-lang-sierra-to-casm',
+                      'host': _GW,
+                      'harness': 'kani/cairo-lang-sierra-to-casm/gas_wallet.rs',
+                      'props': {'C04'},
+                      'functions': [(_GW, 'impl GasWallet', 'update'),
+                                    (_GW, 'impl PartialEq for GasWallet', 'eq'),
+                                    ('crates/cairo-lang-utils/src/small_ordered_map.rs', 'impl<Key: Eq, Value: Eq> SmallOrderedMap<Key, Value>', 'eq_unordered'),
+                                    ('crates/cairo-lang-utils/src/collection_arithmetics.rs',
+                                     'impl<Key: Eq, Value: HasZero + Clone + Eq> MergeCollection<Key, Value> for SmallOrderedMap<Key, Value>', 'merge_collection')],
+                      'trusted': ['gas_wallet is BOUNDED in the key universe {Const, Pedersen} (concrete map shapes, one harness per presence pattern); '
+                                  'values are symbolic i64 with |v| < 2^60 (A3: no overflow in m[k] - c[k])',
+                                  'vector_map::VecMap and merge_collection run as real code under CBMC (not assumed)']}
+_BLD = 'crates/cairo-lang-casm/src/builder.rs'
+KANI['builder_steps'] = {'crate': 'cairo-lang-casm',
+                         'host': _BLD,
+                         'harness': 'kani/cairo-lang-casm/builder_steps.rs',
+                         'props': {'C04', 'C17'},
+                         'functions': [(_BLD, 'impl CasmBuilder', 'next_instruction'),
+                                       (_BLD, 'impl CasmBuilder', 'add_ap'),
+                                       (_BLD, 'impl CasmBuilder', 'increase_ap_change'),
+                                       (_BLD, 'impl CasmBuilder', 'alloc_var'),
+                                       (_BLD, 'impl CasmBuilder', 'steps'),
+                                       (_BLD, 'impl CasmBuilder', 'curr_ap_change'),
+                                       (_BLD, 'impl State', 'validate_finality'),
+                                       (_BLD, 'impl State', 'intersect')],
+                         'trusted': ['builder state invariant assumed on entry: allocated >= 0 (Default establishes it; alloc_var and increase_ap_change, '
+                                     'the only writers, are proved to keep it) and ap_change/steps/next_instruction_offset < 2^48 (A3)',
+                                     'State::intersect is BOUNDED: var maps have concrete shapes with <= 2 vars (symbolic contents)',
+                                     'instruction size oracle 1 + has_immediate is the C16 obligation on op_size']}
 VERUS = {}
 NATIVE = {}
+
+NATIVE = globals().get('NATIVE', {})
+NATIVE['n_c04_entry_cost'] = dict(
+    crate='cairo-lang-runner',
+    host='crates/cairo-lang-runner/src/lib.rs',
+    harness='native/cairo-lang-runner/n_c04_entry_cost.rs',
+    props={'C04'},
+    bound='token price table exhaustive; entry cost on hand-written functions with 0..=3 pedersen calls',
+    functions=[('crates/cairo-lang-runner/src/lib.rs', None, 'token_gas_cost'), ('crates/cairo-lang-runner/src/lib.rs', 'impl SierraCasmRunner', 'initial_required_gas')],
+)
